@@ -9,6 +9,7 @@ package main
 //c01:entry k3(int) int
 //c01:entry k4(int,bool) int
 //c01:entry k5(int) int,int
+//c01:entry k6(int,int) int
 
 var G0 int = 0
 
@@ -143,6 +144,31 @@ L1:
 	switch y & 1 {
 	}
 	return x, y
+}
+
+func k6(a, b int) int {
+	n := 0
+	// constant cases, tag with control flow of its own
+	switch a > 0 && b > 0 {
+	case true:
+		n = 1
+	case false:
+		n = 2
+	}
+	switch a < 0 || tb(b) {
+	case false:
+		n += 10
+	default:
+		n += 20
+	}
+	switch x := a & 1; x == 1 && tb(a) || b == 3 {
+	case true:
+		n += 100
+		fallthrough
+	case false:
+		n += 200
+	}
+	return n
 }
 
 func tb(k int) bool {
